@@ -25,11 +25,27 @@ NQMAX = 3
 LENS = [64, 1024, 4096, 16384, 65536]
 
 
+def signature(ng):
+    def f(bad, at, v):
+        sig = {'part': 'mem', 'ng': ng}
+        ev = bad[min(at, len(bad)) - 1] if bad else {}
+        if ev.get('e') == 'KLaunch':
+            up = (ev.get('cq'), ev.get('ci'))
+            copied = any(r['e'] == 'CodeCopied' and (r['q'], r['i']) == up for r in bad[:at - 1])
+            if not ev.get('cq'):
+                # no operation of this process uploads the code object at all (the driver reused another process's copy)
+                sig = {'part': 'mem', 'kind': 'launch_without_code_upload_in_process'}
+            elif not copied and up != (ev['q'], ev['i']):
+                # the launch runs a code object whose upload is queued on ANOTHER queue and has not completed
+                sig = {'part': 'mem', 'kind': 'launch_before_code_upload_on_other_queue'}
+        return sig
+    return f
+
+
 def tspec(ng):
     # ng: 1, 2 (timing platform) or 'emu' (functional emulation: no caches, no flushes)
     cfg = 'QueueMemTrace_emu.cfg' if ng == 'emu' else 'QueueMemTrace_%dgpu.cfg' % ng
-    return {'dirs': DIRS, 'module': 'QueueMemTrace.tla', 'cfg': cfg, 'timeout': 900,
-            'signature': lambda bad, at, v: {'part': 'mem', 'ng': ng}}
+    return {'dirs': DIRS, 'module': 'QueueMemTrace.tla', 'cfg': cfg, 'timeout': 900, 'signature': signature(ng)}
 
 
 def gen_prog(rng, q, n):
@@ -76,7 +92,10 @@ def gen_scenario(rng, i, ng):
         ctx = list(range(1, nq + 1))
         lens = [rng.choice([8192, 32768] if emu else LENS)] * nq
     return {'name': 'rnd%s_%d' % (ng, i), 'ng': 1 if emu else ng, 'nq': nq, 'gpu': [1] * nq, 'home': home, 'len': lens,
-            'ctx': ctx, 'emu': emu, 'progs': progs, 'order': order, 'drain': rng.choice(['seq', 'par', 'rev'])}
+            'ctx': ctx, 'emu': emu, 'progs': progs, 'order': order, 'drain': rng.choice(['seq', 'par', 'rev']),
+            # all launches of the run use ONE code object (as a workload that loads its kernel once does): whatever the
+            # driver keeps per code object is then shared by the queues
+            'shareco': rng.random() < 0.5}
 
 
 def directed(ng):
@@ -89,6 +108,17 @@ def directed(ng):
         out.append({'name': 'dir%d_%d' % (ng, j), 'ng': ng, 'nq': 2, 'gpu': [1, 1], 'home': home, 'len': [big, small],
                     'progs': [[{'k': 'd2d', 'dst': 2, 'src': 1}, {'k': 'd2h', 'b': 2}], p2],
                     'order': [2, 1, 1] + [2] * (nh + 1), 'drain': ['seq', 'par', 'rev'][j % 3]})
+    # two queues of one context launch the same code object with different arguments at the same time
+    out.insert(1, {'name': 'share%d' % ng, 'ng': ng, 'nq': 2, 'gpu': [1, 1], 'home': home, 'len': [4096, 4096], 'shareco': True,
+                   'progs': [[{'k': 'h2d', 'b': 1, 'v': 11}, {'k': 'd2d', 'dst': 2, 'src': 1}, {'k': 'd2h', 'b': 2}],
+                             [{'k': 'h2d', 'b': 3, 'v': 21}, {'k': 'd2d', 'dst': 4, 'src': 3}, {'k': 'd2h', 'b': 4}]],
+                   'order': [1, 2, 1, 2, 1, 2], 'drain': 'par'})
+    # queue 1 reaches its launch (which carries the upload of the shared code object) after six copies, queue 2
+    # launches the same code object at once: the known finding C12-launch-before-code-upload-on-other-queue
+    out.insert(2, {'name': 'codeorder%d' % ng, 'ng': ng, 'nq': 2, 'gpu': [1, 1], 'home': home, 'len': [1024, 1024], 'shareco': True,
+                   'progs': [[{'k': 'h2d', 'b': 1, 'v': 11 + i} for i in range(6)] + [{'k': 'd2d', 'dst': 2, 'src': 1}, {'k': 'd2h', 'b': 2}],
+                             [{'k': 'd2d', 'dst': 4, 'src': 3}, {'k': 'd2h', 'b': 4}]],
+                   'order': [1] * 8 + [2, 2], 'drain': 'par'})
     # a large read-back at the end of a queue: what the array holds when DrainCommandQueue returns is compared with
     # what it holds at the end of the run (a drain must not return before the copy's data has been delivered)
     out.insert(1, {'name': 'big%d' % ng, 'ng': ng, 'nq': 2, 'gpu': [1, 1], 'home': home, 'len': [262144, 64],
@@ -99,18 +129,38 @@ def directed(ng):
 
 
 def run_scenarios(ctx, drv, scen, tag):
-    sfile = os.path.join(ctx.scratch, 'mem_%s.json' % tag)
-    json.dump(scen, open(sfile, 'w'))
-    t = os.path.join(ctx.scratch, 'mem_%s.ndjson' % tag)
-    p, stats = common.run_driver(ctx, drv, ['-scen', sfile, '-out', t, '-nqmax', NQMAX], timeout=1800)
-    if stats is None:
-        # a crash of the simulator while it runs queue programs is real behaviour
-        ctx.report_failure('C12 (memory part): the timing platform crashed while running queue programs: ' + p.stdout[-600:],
-                           {'part': 'mem', 'kind': 'crash'}, {'driver': {'cmd': 'c12mem', 'scenarios': scen}})
+    """One process per run (a run that launches a kernel before its code is uploaded is abandoned: its simulation keeps
+    spinning until the process exits), a few at a time; the traces are concatenated in scenario order."""
+    from concurrent.futures import ThreadPoolExecutor
+
+    def one(i_sc):
+        i, sc = i_sc
+        sfile = os.path.join(ctx.scratch, 'mem_%s_%d.json' % (tag, i))
+        json.dump([sc], open(sfile, 'w'))
+        t = os.path.join(ctx.scratch, 'mem_%s_%d.ndjson' % (tag, i))
+        p, stats = common.run_driver(ctx, drv, ['-scen', sfile, '-out', t, '-nqmax', NQMAX, '-limit', 300], timeout=900)
+        return sc, t, p, stats
+
+    with ThreadPoolExecutor(max_workers=4) as ex:
+        res = list(ex.map(one, enumerate(scen)))
+    out = os.path.join(ctx.scratch, 'mem_%s.ndjson' % tag)
+    total = {'scenarios': 0, 'abandoned': 0}
+    with open(out, 'w') as f:
+        for sc, t, p, stats in res:
+            if stats is None:
+                # a crash of the simulator while it runs queue programs is real behaviour
+                ctx.report_failure('C12 (memory part): the platform crashed while running queue programs (%s): %s' % (
+                    sc['name'], p.stdout[-600:]), {'part': 'mem', 'kind': 'crash'},
+                    {'driver': {'cmd': 'c12mem', 'ng': sc['ng'], 'scenarios': [sc]}})
+                continue
+            if stats.get('timeouts'):
+                raise vlib.Infra('c12mem: run %s did not finish within its wall-clock limit: %s' % (sc['name'], p.stdout[-300:]))
+            total['scenarios'] += 1
+            total['abandoned'] += stats.get('abandoned', 0)
+            f.write(open(t).read())
+    if total['scenarios'] == 0:
         return None, None
-    if stats.get('timeouts'):
-        raise vlib.Infra('c12mem: a run did not finish within its wall-clock limit: ' + p.stdout[-400:])
-    return t, stats
+    return out, total
 
 
 def corruptions():
@@ -217,7 +267,7 @@ def run_component(ctx):
     parts_all = []
     first = None
     for ng, n in ((1, n1), (2, n2), ('emu', n2)):
-        scen = ([] if ng == 'emu' else directed(ng)[:(5 if thorough else 3)]) + [gen_scenario(rng, i, ng) for i in range(n)]
+        scen = ([] if ng == 'emu' else directed(ng)[:(7 if thorough else 5)]) + [gen_scenario(rng, i, ng) for i in range(n)]
         t, stats = run_scenarios(ctx, drv, scen, '%sgpu' % ng)
         if t is None:
             continue
